@@ -104,6 +104,13 @@ def cases(shard, nshards, seed, tier):
             for entry in ENTRIES:
                 if mine():
                     yield {"family": "more-than-ten-levels", "n": 2 * kk, "pairs": pairs, "config": cfg, "behaviour": beh, "entry": entry}
+    # hundreds of regions open at once under a crossing stem: the first-come-first-served text of the fall-back paths
+    for depth in (257, 300) + ((600,) if tier != "quick" else ()):
+        name, n, pairs = gen2d.deep_nest_under_a_crossing_stem(depth)
+        for cfg, beh in (("none", "ok"), ("cbc", "raise"), ("cbc", "notsolved")):
+            for entry in ENTRIES:
+                if mine():
+                    yield {"family": "deep-nesting", "n": n, "pairs": pairs, "config": cfg, "behaviour": beh, "entry": entry}
     for fam, n, pairs in structs:
         for cfg, beh in cells():
             for entry in ENTRIES:
